@@ -50,7 +50,7 @@ HkdfGrid == IF Thorough
 
 PbGrid == { [plen |-> p, slen |-> s, count |-> c, len |-> n] :
               p \in IF Thorough THEN {0, 1, 32, 63, 64, 65, 100, 200} ELSE {0, 8, 63, 64, 65, 100, 200},
-              s \in IF Thorough THEN {0, 1, 8, 13, 28, 60, 64, 100, 200} ELSE {0, 8, 13, 60, 200},
+              s \in IF Thorough THEN {0, 1, 8, 13, 28, 59, 60, 61, 64, 65, 100, 200} ELSE {0, 8, 13, 60, 61, 100, 200},
               c \in IF Thorough THEN {0, 1, 2, 3, 4, 5, 17} ELSE {0, 1, 2, 3, 5},
               n \in IF Thorough THEN {0, 1, 31, 32, 33, 64, 65, 100} ELSE {1, 32, 33, 70} }
 
